@@ -24,8 +24,22 @@ func runFault(cfg Config) {
 	bfile = NewBTraceFile(cfg.BackendOut)
 	defer bfile.Close()
 	run := 0
-	for i := 0; i < cfg.Programs; i++ {
-		p := GenProgram(rnd, cfg.Gen, i)
+	for i := -2; i < cfg.Programs; i++ {
+		var p Program
+		if i < 0 {
+			// directed shapes: (-1) the victim creates one store (opened first) and changes the item count of an
+			// existing one; (-2) the victim updates existing nodes of two stores.  Every store of a failed commit
+			// must read as before and leave nothing behind, whichever store comes first
+			if cfg.Gen.MaxStores < 2 {
+				continue
+			}
+			p = directedCreateAndExisting(rnd, cfg.Gen)
+			if i == -2 {
+				p = directedTwoExisting(rnd, cfg.Gen)
+			}
+		} else {
+			p = GenProgram(rnd, cfg.Gen, i)
+		}
 		victim := -1
 		for ti, t := range p.Txns {
 			if t.Mode == "w" && t.End == "commit" {
@@ -45,6 +59,10 @@ func runFault(cfg Config) {
 		positions := make([]int, 0, n)
 		for k := 1; k <= n; k++ {
 			positions = append(positions, k)
+		}
+		if i < 0 && cfg.DirectedMax > 0 && len(positions) > cfg.DirectedMax {
+			rnd.Shuffle(len(positions), func(a, b int) { positions[a], positions[b] = positions[b], positions[a] })
+			positions = positions[:cfg.DirectedMax]
 		}
 		if cfg.MaxFault > 0 && len(positions) > cfg.MaxFault {
 			rnd.Shuffle(len(positions), func(a, b int) { positions[a], positions[b] = positions[b], positions[a] })
@@ -70,6 +88,41 @@ func runFault(cfg Config) {
 }
 
 var bfile *BTraceFile
+
+func directedTwoExisting(r *rand.Rand, c GenCfg) Program {
+	pl := func() string { return c.Placements[r.Intn(len(c.Placements))] }
+	sl := func() int { return c.Slots[r.Intn(len(c.Slots))] }
+	p := Program{Stores: []sopenv.StoreOpts{
+		{Name: c.Prefix + "e_s0", Slot: sl(), Unique: true, Placement: pl()},
+		{Name: c.Prefix + "e_s1", Slot: sl(), Unique: true, Placement: pl()}}}
+	t1 := TxnSpec{Mode: "w", New: []int{0, 1}, End: "commit"}
+	for k := 1; k <= 5; k++ {
+		t1.Ops = append(t1.Ops, OpSpec{Op: "Add", Store: 0, K: k, V: fmt.Sprintf("a%d", k)}, OpSpec{Op: "Add", Store: 1, K: k, V: fmt.Sprintf("b%d", k)})
+	}
+	t2 := TxnSpec{Mode: "w", Open: []int{0, 1}, End: "commit", Ops: []OpSpec{
+		{Op: "Update", Store: 0, K: 2, V: "a2'"}, {Op: "Add", Store: 0, K: 6, V: "a6"},
+		{Op: "Update", Store: 1, K: 3, V: "b3'"}, {Op: "Remove", Store: 1, K: 5}, {Op: "Add", Store: 1, K: 7, V: "b7"}}}
+	p.Txns = []TxnSpec{t1, t2}
+	return p
+}
+
+func directedCreateAndExisting(r *rand.Rand, c GenCfg) Program {
+	pl := func() string { return c.Placements[r.Intn(len(c.Placements))] }
+	sl := func() int { return c.Slots[r.Intn(len(c.Slots))] }
+	p := Program{Stores: []sopenv.StoreOpts{
+		{Name: c.Prefix + "d_s0", Slot: sl(), Unique: true, Placement: pl()},
+		{Name: c.Prefix + "d_s1", Slot: sl(), Unique: true, Placement: pl()}}}
+	t1 := TxnSpec{Mode: "w", New: []int{1}, End: "commit"}
+	for k := 1; k <= 5; k++ {
+		t1.Ops = append(t1.Ops, OpSpec{Op: "Add", Store: 1, K: k, V: fmt.Sprintf("old%d", k)})
+	}
+	t2 := TxnSpec{Mode: "w", New: []int{0}, Open: []int{1}, End: "commit", Ops: []OpSpec{
+		{Op: "Add", Store: 0, K: 1, V: "n1"}, {Op: "Add", Store: 0, K: 2, V: "n2"},
+		{Op: "Add", Store: 1, K: 6, V: "n6"}, {Op: "Add", Store: 1, K: 7, V: "n7"}, {Op: "Add", Store: 1, K: 8, V: "n8"},
+		{Op: "Remove", Store: 1, K: 1}}}
+	p.Txns = []TxnSpec{t1, t2}
+	return p
+}
 
 func faultRun(ctx context.Context, cfg Config, p0 *Program, pi, run int, f *decor.Fault, tf *TraceFile, tag string) (int, []string) {
 	// fresh store names per run so that process-wide caches cannot leak between runs
